@@ -48,6 +48,16 @@ EFFECTFUL = ["print(1)", "print('hello') or 1", "exit()", "quit()", "input()", "
 BOMBS = []
 
 
+def iterator_groups():
+    """Expressions that build the same one-shot iterator under different consumers, evaluated one after the other in one process: a value remembered from
+    an earlier evaluation (a memo holding the live, by then exhausted iterator) gives the later ones a wrong answer."""
+    groups = []
+    for it in ["reversed([1, 2])", "iter([1, 2])", "zip([1], [2])", "enumerate(['a'])", "map(str, [1])", "filter(None, [0, 1])", "reversed((3,))", "iter('ab')", "zip('ab', 'cd')"]:
+        groups.append([f"list({it})", f"any({it})", f"tuple({it})", f"bool(list({it}))", f"len(list({it}))", f"sorted({it}) == []", f"all({it})", f"list({it}) == list({it})",
+                       f"[list({it}), list({it})]", f"not tuple({it})", f"sum(1 for _ in {it})"])
+    return groups
+
+
 def is_singleton(a):
     return a in SINGLETONS
 
@@ -170,7 +180,8 @@ def w_literal(arg):
 
         def viol(kind, detail):
             if len(res["violations"]) < 80:
-                res["violations"].append({"kind": kind, "input": e, "detail": detail, "replay": {"fn": "harness.checks.c15:w_literal", "arg": {"exprs": [e]}}})
+                whole = {"exprs": arg["exprs"], "replay_whole": True} if arg.get("replay_whole") else {"exprs": [e]}  # history-dependent groups replay as a whole
+                res["violations"].append({"kind": kind, "input": e, "detail": detail, "replay": {"fn": "harness.checks.c15:w_literal", "arg": whole}})
             else:
                 res["truncated"] = res.get("truncated", 0) + 1
 
@@ -320,7 +331,8 @@ def main() -> int:
             pool.Pool(hashseed=12345, extra_env={"VERIF_WORKER_CWD": str(scratch / "c15ref")}) as pref:
         verdict.run_witnesses(v, p)
         size = 400
-        reps = p.map("harness.checks.c15:w_literal", [{"exprs": exprs[i:i + size]} for i in range(0, len(exprs), size)], cpu_s=300)
+        reps = p.map("harness.checks.c15:w_literal", [{"exprs": g, "replay_whole": True} for g in iterator_groups()] +
+                     [{"exprs": exprs[i:i + size]} for i in range(0, len(exprs), size)], cpu_s=300)
         verdict.pool_failures(v, reps, "C15 literal")
         for rep in reps:
             if rep.get("status") == "ok":
